@@ -89,9 +89,15 @@ def sub_periods(text, def_unit):
             out.append(f"{cur.year:04d}-{cur.month:02d}")
             y, m = add_months(cur.year, cur.month, 1)
             cur = datetime.date(y, m, 1)
-        else:
+        elif (start.month, start.day) == (1, 1):
             out.append(f"{cur.year:04d}")
             cur = datetime.date(cur.year + 1, 1, 1)
+        else:
+            # a year-defined variable over a period that does not start in January:
+            # year-long pieces from its start (rolling years)
+            out.append(f"year:{cur.year:04d}-{cur.month:02d}" if cur.day == 1 else f"year:{cur.isoformat()}")
+            y, m = add_months(cur.year, cur.month, 12)
+            cur = datetime.date(y, m, cur.day)
     return out
 
 
@@ -103,7 +109,7 @@ LONG = {
     "month": ["2018", "2019", "year:2018-07", "year:2017:2", "month:2018-01:3", "month:2018-11:4", "year:2019-03", "month:2018-06:12"],
     "day": ["2018-02", "2020-02", "2018-01", "2018-04", "month:2018-01:2", "day:2018-02-26:5", "day:2018-01-01:10", "month:2018-01-15", "2019",
             "year:2019-03", "year:2019-07", "year:2020-03", "2020"],
-    "year": ["year:2018:2", "year:2017:3", "year:2018:3"],
+    "year": ["year:2018:2", "year:2017:3", "year:2018:3", "year:2018-07:2", "year:2017-03:3"],
 }
 SHORT = {
     "month": ["2018-01", "2018-02", "2018-07", "2018-12", "2019-01", "2019-02", "2017-12", "2018-06"],
@@ -279,6 +285,11 @@ def run(scn) -> Result:
             }
             from ..compile import tile
 
+            # handles on the variables' holders, obtained before anything is set (the
+            # documented way to feed a variable directly): what the simulation holds and
+            # what a handle shows are the same thing
+            handles = {name: sim.get_holder(name) for name in models}
+
             queue = list(scn["ops"])
             step = -1
             while queue:
@@ -370,6 +381,7 @@ def run(scn) -> Result:
                     if any(_loc(sim, var, s) in ("disk", "both") for s in known):
                         res.count("probe:preset_on_disk")
                     mech = {
+                        "rolling_years_of_a_year_variable": bool(spec["unit"] == "year" and subs and subs[0].startswith("year:")),
                         "rule": spec["set_input"],
                         "type": spec["type"],
                         "unit": spec["unit"],
@@ -433,10 +445,22 @@ def run(scn) -> Result:
                                             int_nondivisible=bool(spec["type"] == "int" and (want != numpy.floor(want)).any()), **mech)
                                 break
                     m.commit(after, unknown)
+                    res.count("clause:C16.handle")
+                    with observing(env):
+                        for s_ in subs:
+                            try:
+                                seen = handles[var].get_array(_P(s_))
+                            except Exception as e:  # noqa: BLE001
+                                seen = numpy.array([f"unreadable: {type(e).__name__}"])
+                            if canon(seen) != canon(after.get(s_)):
+                                res.violate("C16.untouched", step, op=do[:3], sub=s_, what="a handle on the variable's holder obtained earlier does not show what the simulation holds",
+                                            simulation=canon(after.get(s_)), handle=canon(seen), **mech)
+                                break
                     # C16.conserve ---------------------------------------------------
                     if spec["set_input"] == "divide" and not res.violations:
                         res.count("clause:C16.conserve")
                         cout = apply_op(sim, world, ["calculate_add", var, period_text])
+                        _adopt_memoised(sim, env, var, m)
                         if cout[0] != "ok":
                             res.violate("C16.conserve", step, op=do[:3], what="calculate_add raised", error=type(cout[1]).__name__, **mech)
                         else:
@@ -465,6 +489,7 @@ def run(scn) -> Result:
                                 if after.get(s) is not None:
                                     m.store[s] = after[s]
                             exp_total = exp_total + m.store[s].astype(numpy.float64) if s in m.store else exp_total
+                        _adopt_memoised(sim, env, var, m)
                 elif kind == "get_array":
                     out = apply_op(sim, world, do)
                     H.add(op["actor"], kind, do[1:], canon_outcome(out))
@@ -490,6 +515,17 @@ def run(scn) -> Result:
     finally:
         world.close()
         seams.Env.uninstall()
+
+
+def _adopt_memoised(sim, env, var, m):
+    """A sum memoises the default for the pieces it found unknown.  They are the model's
+    sub-periods - except for a year-defined variable summed over a period that does not
+    start in January, where the engine sums (and memoises) calendar years instead (D16)."""
+    with observing(env):
+        holder = sim.get_holder(var)
+        for p_ in holder.get_known_periods():
+            if str(p_) not in m.store:
+                m.store[str(p_)] = holder.get_array(p_)
 
 
 def _read(sim, env, var, subs):
